@@ -33,16 +33,16 @@ SCALES = [1.0, 1.0, 1.0, 1.0, 0.25, 2.5, 3.6, 10.0]   # lattice constants in arb
 # BZG-units: Crystal.genBZG pre-filters candidate reciprocal vectors with the DIRECT lattice vector L.n instead of B.n, so for lattice
 #   constants >~ 3.5 length units zone-defining vectors are dropped and fullkptmesh leaves points outside the zone.
 #   Predicate (input only, over-approximation): some zone-defining n and some other n' in [-3,3]^d have 2 pi n.n' >= |B n'|^2.
-EXCLUDE_BZG_UNITS = True and not os.environ.get("VERIF_C22_NO_EXCLUDE")
+EXCLUDE_BZG_UNITS = False  # repaired in /repo (79056a2)
 # fold-once: Crystal.fullkptmesh folds each point with a single pass over the zone-defining vectors, which is not always enough
 #   (body-centred tetragonal c/a=0.8, 3x3x3).  Predicate: a model of that single pass on the oracle's own zone-defining vectors
 #   (same enumeration order) leaves a point of the requested mesh outside the zone.
-EXCLUDE_FOLD_ONCE = True and not os.environ.get("VERIF_C22_NO_EXCLUDE")
+EXCLUDE_FOLD_ONCE = False  # repaired in /repo (2878834)
 
 
 @st.composite
 def cases(draw):
-    rec = draw(cs.recipes(max_species=2, max_mobile=3, max_other=2))
+    rec = draw(cs.recipes(max_species=2, max_mobile=3, max_other=2, p_catalogue=0))  # the catalogue is enumerated in run()
     d = len(rec["lattice"])
     mode = draw(st.sampled_from(["iso", "iso", "any", "any", "any"]))
     if mode == "iso":
